@@ -239,4 +239,10 @@ def null_tqdm():
         def close(self):
             pass
 
+        def set_description(self, *a, **k):
+            pass
+
+        def set_postfix(self, *a, **k):
+            pass
+
     return _T
